@@ -360,6 +360,10 @@ func (e *Exec) assertTerm(c *Term, what string) {
 	if c.IsFalse() {
 		e.fail(what, nil)
 	}
+	if v, ok := e.decided[c]; ok && v {
+		e.discharged++
+		return
+	}
 	e.nontrivial++
 	r := e.solver.Check(Not(c))
 	if r == "sat" {
@@ -372,6 +376,7 @@ func (e *Exec) assertTerm(c *Term, what string) {
 		e.cut("solver:" + r)
 	}
 	e.discharged++
+	e.decided[c] = true
 	e.solver.Assert(c)
 }
 
